@@ -865,7 +865,7 @@ impl UserHeader {
             && let Some(end) = block3[start..].find('}')
         {
             let value = &block3[start + 5..start + end];
-            user_header.balance_checkpoint = Self::parse_balance_checkpoint(value);
+            user_header.balance_checkpoint = Some(Self::parse_balance_checkpoint(value)?);
         }
 
         if block3.contains("{106:")
@@ -910,7 +910,8 @@ impl UserHeader {
             && let Some(end) = block3[start..].find('}')
         {
             let value = &block3[start + 5..start + end];
-            user_header.payment_release_information = Self::parse_payment_release_info(value);
+            user_header.payment_release_information =
+                Some(Self::parse_payment_release_info(value)?);
         }
 
         if block3.contains("{433:")
@@ -918,7 +919,8 @@ impl UserHeader {
             && let Some(end) = block3[start..].find('}')
         {
             let value = &block3[start + 5..start + end];
-            user_header.sanctions_screening_info = Self::parse_sanctions_screening_info(value);
+            user_header.sanctions_screening_info =
+                Some(Self::parse_sanctions_screening_info(value)?);
         }
 
         if block3.contains("{434:")
@@ -926,16 +928,17 @@ impl UserHeader {
             && let Some(end) = block3[start..].find('}')
         {
             let value = &block3[start + 5..start + end];
-            user_header.payment_controls_info = Self::parse_payment_controls_info(value);
+            user_header.payment_controls_info = Some(Self::parse_payment_controls_info(value)?);
         }
 
         Ok(user_header)
     }
 
     /// Parse balance checkpoint from tag value
-    fn parse_balance_checkpoint(value: &str) -> Option<BalanceCheckpoint> {
-        if value.len() >= 12 {
-            Some(BalanceCheckpoint {
+    fn parse_balance_checkpoint(value: &str) -> Result<BalanceCheckpoint> {
+        // 6!n6!n[2!n]: date, time and optionally hundredths of a second
+        if (value.len() == 12 || value.len() == 14) && value.bytes().all(|b| b.is_ascii_digit()) {
+            Ok(BalanceCheckpoint {
                 date: value[0..6].to_string(),
                 time: value[6..12].to_string(),
                 hundredths_of_second: if value.len() > 12 {
@@ -945,7 +948,10 @@ impl UserHeader {
                 },
             })
         } else {
-            None
+            Err(ParseError::InvalidBlockStructure {
+                block: "3".to_string(),
+                message: format!("Tag 423 must be 12 or 14 digits, found '{value}'"),
+            })
         }
     }
 
@@ -965,57 +971,52 @@ impl UserHeader {
     }
 
     /// Parse payment release info from tag value
-    fn parse_payment_release_info(value: &str) -> Option<PaymentReleaseInfo> {
-        if value.len() >= 3 {
-            let code = value[0..3].to_string();
-            let additional_info = if value.len() > 4 && value.chars().nth(3) == Some('/') {
-                Some(value[4..].to_string())
-            } else {
-                None
-            };
-            Some(PaymentReleaseInfo {
-                code,
-                additional_info,
-            })
+    fn parse_payment_release_info(value: &str) -> Result<PaymentReleaseInfo> {
+        let (code, additional_info) = Self::split_code_word("165", value)?;
+        Ok(PaymentReleaseInfo {
+            code,
+            additional_info,
+        })
+    }
+
+    /// Split a `3!a[/text]` tag value into code word and additional information; anything else
+    /// (a shorter code word, characters after it that are not a slash and a text) is refused
+    fn split_code_word(tag: &str, value: &str) -> Result<(String, Option<String>)> {
+        let shape_ok = value.is_ascii()
+            && value.len() >= 3
+            && (value.len() == 3 || (value.len() > 4 && value.as_bytes()[3] == b'/'));
+        if !shape_ok {
+            return Err(ParseError::InvalidBlockStructure {
+                block: "3".to_string(),
+                message: format!(
+                    "Tag {tag} must be a three-character code word, optionally followed by '/' and a text, found '{value}'"
+                ),
+            });
+        }
+        let info = if value.len() > 4 {
+            Some(value[4..].to_string())
         } else {
             None
-        }
+        };
+        Ok((value[0..3].to_string(), info))
     }
 
     /// Parse sanctions screening info from tag value
-    fn parse_sanctions_screening_info(value: &str) -> Option<SanctionsScreeningInfo> {
-        if value.len() >= 3 {
-            let code_word = value[0..3].to_string();
-            let additional_info = if value.len() > 4 && value.chars().nth(3) == Some('/') {
-                Some(value[4..].to_string())
-            } else {
-                None
-            };
-            Some(SanctionsScreeningInfo {
-                code_word,
-                additional_info,
-            })
-        } else {
-            None
-        }
+    fn parse_sanctions_screening_info(value: &str) -> Result<SanctionsScreeningInfo> {
+        let (code_word, additional_info) = Self::split_code_word("433", value)?;
+        Ok(SanctionsScreeningInfo {
+            code_word,
+            additional_info,
+        })
     }
 
     /// Parse payment controls info from tag value
-    fn parse_payment_controls_info(value: &str) -> Option<PaymentControlsInfo> {
-        if value.len() >= 3 {
-            let code_word = value[0..3].to_string();
-            let additional_info = if value.len() > 4 && value.chars().nth(3) == Some('/') {
-                Some(value[4..].to_string())
-            } else {
-                None
-            };
-            Some(PaymentControlsInfo {
-                code_word,
-                additional_info,
-            })
-        } else {
-            None
-        }
+    fn parse_payment_controls_info(value: &str) -> Result<PaymentControlsInfo> {
+        let (code_word, additional_info) = Self::split_code_word("434", value)?;
+        Ok(PaymentControlsInfo {
+            code_word,
+            additional_info,
+        })
     }
 }
 
